@@ -96,7 +96,7 @@ def case_strategy(draw):
     for _ in range(ne):
         ev.append([draw(st.sampled_from(['in', 'in', 'in', 'knot', 'end', 'out'])), 0.5 * (1 + draw(uf)), draw(st.integers(0, 40))])
     return dict(x=x, nord=nord, opt=opt, kw=kw, ev=ev, coeff_seed=[draw(uf) for _ in range(8)], sort_eval=draw(st.sampled_from([False, False, True])),
-                ev_dtype=draw(st.sampled_from(['f8', 'f8', 'f4'])))
+                ev_dtype=draw(st.sampled_from(['f8', 'f8', 'f4'])), many=draw(st.integers(0, 400)) == 0)
 
 
 def body(case):
@@ -193,6 +193,26 @@ def body(case):
                 ok2 = (np.abs(y2[in2] - a1) <= tolv) | (np.abs(y2[in2] - a2) <= tolv)
                 check(bool(ok2.all()), 'second-evaluation-on-same-object-wrong', lambda: dict(x=float(ev2[in2][~ok2][0]), got=float(y2[in2][~ok2][0]), want=float(a1[~ok2][0])))
             check(bool(np.array_equal(np.asarray(m2).astype(bool), in2)), 'second-evaluation-mask-wrong')
+    if case.get('many'):
+        # a whole image worth of evaluation points in one call (more than a 16-bit index can count), in no particular order
+        kk = np.arange(40000, dtype='f8')
+        big = lo + (hi - lo) * np.modf(kk * 0.6180339887498949 + cs[1] ** 2)[0]
+        yb, mb = call(b.value, big.copy())
+        parts = [np.asarray(call(b.value, big[i:i + 8000].copy())[0], dtype='f8') for i in range(0, 40000, 8000)]
+        with judge('many-points'):
+            yb = np.asarray(yb, dtype='f8')
+            # the value at a point does not depend on how many other points are asked for in the same call; the 8000-point calls
+            # are themselves spot-checked against the reference
+            ref_parts = np.concatenate(parts)
+            tolb = 1e-9 * (1 + np.abs(coeff).max())
+            okb = np.abs(yb - ref_parts) <= tolb
+            sub = slice(0, 40000, 97)
+            rb1 = bslib.spline_value(t, coeff, nord, big[sub], 'right')
+            rb2 = bslib.spline_value(t, coeff, nord, big[sub], 'left')
+            oks = (np.abs(ref_parts[sub] - rb1) <= tolb) | (np.abs(ref_parts[sub] - rb2) <= tolb)
+            check(bool(okb.all()) and bool(oks.all()) and bool(np.all(mb)), 'value-differs-from-cox-de-boor-for-40000-points',
+                  lambda: dict(first_bad=int(np.nonzero(~okb)[0][0]) if (~okb).any() else None, nbad=int((~okb).sum()), spot_bad=int((~oks).sum())))
+        note_label('40000-points')
     xs = np.sort(ev[(ev >= lo) & (ev <= hi)])
     if len(xs):
         idx = call(b.intrv, xs)
